@@ -37,7 +37,7 @@ fn readers(case: &Case) -> Vec<DescribedReader> {
     case.files
         .iter()
         .enumerate()
-        .map(|(i, rows)| DescribedReader::from_string(format!("file{i}.csv"), csv_text_variant(rows, case.hdr.get(i).cloned().unwrap_or(0))))
+        .map(|(i, _rows)| DescribedReader::from_string(format!("file{i}.csv"), case.file_text(i)))
         .collect()
 }
 
